@@ -533,7 +533,7 @@ KEY_TICKER = "ticker-option-kills-daemon"
 
 def tree_checks_ticker_options():
     """Which shape of nsqd.New the tree has (Gen fact; Nsq.Tie.ProtoAudit.newTickerOptionChecks_shape_known
-    proves it is one of the two)."""
+    demands the F31 shape: a24e9f3 is committed)."""
     try:
         txt = open(os.path.join(ROOT, "lean", "Nsq", "Gen", "ProtoAudit.lean")).read()
     except OSError:
@@ -588,10 +588,13 @@ def halfopen_leg(ctx, corr_broken):
 
 def ticker_leg(ctx, binp, corr_broken):
     """B8: the two option values messagePump hands to time.NewTicker, each in a SUBPROCESS (the daemon may
-    die). Model: Nsq.Model.ProtoEnv.firstConnection checked o (checked = the tree has F31's checks)."""
+    die). Model: Nsq.Model.ProtoEnv.firstConnection true o (F31 = /repo a24e9f3 is committed: the model is the CHECKED one
+    whatever the probe of the source says; a tree without the checks breaks the tie and dies here: VIOLATION)."""
     shape = tree_checks_ticker_options()
-    checked = shape is True
+    checked = True
     ctx.corr["tree_checks_ticker_options"] = shape
+    if shape is not True:
+        corr_broken.append("nsqd.New no longer has F31's two ticker-option checks (probe: %s)" % shape)
     cases = [("defaults", {}, "alive"),
              ("output-buffer-timeout=0", {"VERIF_OBT": "0"}, "bad"),
              ("output-buffer-timeout=-1s", {"VERIF_OBT": "-1000000000"}, "bad"),
@@ -617,7 +620,7 @@ def ticker_leg(ctx, binp, corr_broken):
                 env, "\n# ".join(out[-1200:].splitlines()))
             if shape:
                 ctx.violation(KEY_TICKER + "-regressed", "nsqd.New checks these options (%s) but " % (
-                    "F31" if checked else "not the way F31 does") + what, replay)
+                    "F31" if shape is True else "not the way F31 does") + what, replay)
             else:
                 ctx.violation(KEY_TICKER, what, replay)
         if got != want:
@@ -741,7 +744,7 @@ def run(ctx):
     ctx.assumptions += [
         "writes to the client succeed (write errors are I/O faults: E_*_FAILED / send errors are outside the model)",
         "base model (Props.C09): no backend write fails and no topic is exiting while a publish runs; a failing write IS an input of Nsq.Model.ProtoEnv (Props.C09Audit): mpub_all_or_nothing_partial needs `no failing write` (open finding mpub-partial-on-backend-fault), answers_independent_of_broker_partial needs --max-channel-consumers = 0",
-        "without fixes/F31: output-buffer-timeout > 0 and client-timeout >= 2ns (C09Audit.accepted_iff) — otherwise the first connection kills the daemon (open finding ticker-option-kills-daemon)",
+        "options_never_kill_this_tree: no option value lets a connection kill the daemon - F31 (/repo a24e9f3) is committed, nsqd.New refuses output-buffer-timeout <= 0 and client-timeout < 2ns (C09Audit.accepted_iff; tie newTickerOptionChecks_shape_known accepts only that shape). options_never_kill_unchecked_false is about the tree BEFORE F31 (finding ticker-option-kills-daemon, listed fixed; every value is tried in a subprocess on every run: a dying daemon is a VIOLATION)",
         "dpub_exact: max-req-timeout below 2^63-1 ns; req_clamp: 0 <= max-req-timeout <= 2^63-1 ns",
         "F10 repaired (fixes/F10_mpub_body_limit.patch): mpub_total_le_body_limit is a full theorem of the patched tree",
     ]
